@@ -4,7 +4,7 @@ EXTRACT_V = "ExtractBind.v"
 MODEL_DEPS = ["Base/Bytes.v", "DM/Value.v", "Bind/GoVal.v", "Bind/Bind.v", "Bind/Spec.v"]
 DRIVER = "c19_driver"
 HARNESS = "c19"
-COUNTS = {"quick": 400, "thorough": 6000}
+COUNTS = {"quick": 400, "thorough": 20000}
 DESIGN_REF = "DESIGN.md §4 C19"
 TECHNIQUE = "Coq proof (view = denotation, assemble-then-view, marshal round trip, purity over call histories) + differential run of the extracted model against bindnode / codecHelpers, histories in child processes"
 LEVEL_TEXT = ("Theorems in coq/Props/C19.v about the executable model coq/Bind/Bind.v of bindnode (verifyCompatibility, "
@@ -13,7 +13,7 @@ LEVEL_TEXT = ("Theorems in coq/Props/C19.v about the executable model coq/Bind/B
               "specification coq/Bind/Spec.v: for every bindable (schema type, Go type) pair and every well-formed Go value the "
               "view succeeds and equals the value's denotation; every tree that fits the type is assembled into a well-formed "
               "Go value that reads back as that tree; Marshal/Unmarshal through an order-preserving codec reproduces the data "
-              "(partial: the representation is assumed to fit); with the registry reused every call of every history of "
+              "(what a well-formed value denotes always fits its type); with the registry reused every call of every history of "
               "Wrap/Prototype/Marshal/Unmarshal equals the same call on the initial state and never hits the duplicate-name "
               "panic, which the pinned setting refutes. The model is tied to /repo by running the extracted model on the "
               "records of a Go harness that binds 49 declared Go types (explicit and inferred schemas) and schema-inferred Go "
